@@ -188,3 +188,29 @@ def must_derive(fn, start, init, tyfilter, gens=(), avoid=()):
                     IN[nb] = new
                     work.append(nb)
     return at_term
+
+
+def upvar_operands(facts, cl, sl, idx=None):
+    """For a closure `cl` and a backward slice `sl` computed inside it: the operands of the enclosing function that the
+    slice reaches through captured variables.  Returns (parent fn, [operand, ...]) or (None, [])."""
+    idx = idx or defs_index(cl)
+    used = set()
+    for l in sl['locals']:
+        for kind, bi, d in idx.get(l, []):
+            if kind not in ('assign', 'field'):
+                continue
+            rv = d['rv']
+            for op in ([rv.get('op')] if rv.get('op') else []) + ([dict(rv['place'])] if rv.get('place') else []) + list(rv.get('ops', [])):
+                if op and op.get('l') == 1:
+                    f = _first_field(op)
+                    if f is not None:
+                        used.add(f)
+    # closures are named parent::{closure#n}; the aggregate carries closure_id = that name
+    for f2 in facts.fns.values():
+        if not f2.mir or f2.crate != cl.crate or not cl.qname.startswith(f2.qname + '::{closure'):
+            continue
+        for b, blk in f2.blocks():
+            for st in blk['stmts']:
+                if st['s'] == 'assign' and st['rv']['r'] == 'aggr' and st['rv'].get('ak') == 'closure' and st['rv'].get('closure_id') == cl.qname:
+                    return f2, [st['rv']['ops'][i] for i in sorted(used) if i < len(st['rv']['ops'])]
+    return None, []
